@@ -51,6 +51,10 @@ def classify(path, data, files):
     return "h:" + hashlib.sha1(data).hexdigest()[:12]
 
 
+def in_factory(p):
+    return p == ROOT + "/factory" or p.startswith(ROOT + "/factory/")
+
+
 def snapshot(dirpath, files):
     snap = {}
     for d, dirs, fs in os.walk(os.path.join(dirpath, ROOT)):
@@ -208,6 +212,8 @@ def parse_strace(log, cwd):
                 for p in paths:
                     if ROOT in p:
                         muts.append({"op": name, "path": rel(p)})
+    for m in muts:      # classified here (TLC has no string prefix test): is the path inside the factory directory?
+        m["fac"] = m["path"] == ROOT + "/factory" or m["path"].startswith(ROOT + "/factory/")
     # consecutive writes to one file are one write of the model
     out = []
     for m in muts:
@@ -221,24 +227,42 @@ TRACE_SET = ("trace=openat,open,creat,mkdir,mkdirat,write,pwrite64,writev,unlink
              "ftruncate,rmdir,chmod,fchmod,fchmodat,link,linkat,symlink,symlinkat")
 
 
+INJECT_SET = "openat,mkdirat,mkdir,write,rename,renameat,renameat2,unlink,unlinkat,truncate,ftruncate"
+
+
 def run_upkeep(hidi, cwd, log, kill_at=None):
     cmd = ["strace", "-f", "-y", "-o", log, "-e", TRACE_SET]
     if kill_at is not None:
-        cmd += ["-e", "inject=openat,mkdirat,mkdir,write:signal=SIGKILL:when=%d" % kill_at]
+        cmd += ["-e", "inject=%s:signal=SIGKILL:when=%d" % kill_at]     # (syscall name, its ordinal)
     cmd += [hidi]
-    r = subprocess.run(cmd, cwd=cwd, env=dict(os.environ, HIDI_VERIF_OP="upkeep"), stdout=subprocess.PIPE, stderr=subprocess.PIPE,
+    r = subprocess.run(cmd, cwd=cwd, env=dict(os.environ, HIDI_VERIF_OP="upkeep", GOMAXPROCS="1"), stdout=subprocess.PIPE, stderr=subprocess.PIPE,
                        text=True, timeout=60)
     killed = r.returncode in (-9, 137)
     return r.returncode, killed, r.stdout + r.stderr
 
 
 def count_fs_calls(log):
-    n = 0
+    """strace's when=n counts every syscall of the set separately, per thread.  Returns, for the thread that performs
+    the mutations of hidi-config (GOMAXPROCS=1: the main thread), the sequence of its file-system calls as
+    (syscall name, ordinal of that syscall) and the indices into it of the mutating calls."""
+    seq, cnt, muts = {}, {}, {}
     with open(log, errors="replace") as f:
         for line in f:
-            if re.match(r'^(?:\d+\s+)?(openat|mkdirat|mkdir|write)\(', line):
-                n += 1
-    return n
+            m = re.match(r'^(\d+)\s+(openat|mkdirat|mkdir|write|rename|renameat|renameat2|unlink|unlinkat|truncate|ftruncate)\((.*)', line)
+            if not m:
+                continue
+            pid, name, args = m.group(1), m.group(2), m.group(3)
+            cnt[(pid, name)] = cnt.get((pid, name), 0) + 1
+            seq.setdefault(pid, []).append((name, cnt[(pid, name)]))
+            if ROOT not in args:
+                continue
+            if name in ("mkdir", "mkdirat") or (name == "openat" and ("O_CREAT" in args or "O_TRUNC" in args or "O_WRONLY" in args or "O_RDWR" in args)) \
+                    or name in ("write", "rename", "renameat", "renameat2", "unlink", "unlinkat", "truncate", "ftruncate"):
+                muts.setdefault(pid, []).append(len(seq[pid]) - 1)
+    if not seq:
+        return [], []
+    pid = max(muts, key=lambda k: len(muts[k])) if muts else max(seq, key=lambda k: len(seq[k]))
+    return seq[pid], muts.get(pid, [])
 
 
 def run_case(hidi, workdir, name, spec, files, rng, crash_points):
@@ -256,27 +280,39 @@ def run_case(hidi, workdir, name, spec, files, rng, crash_points):
     rc, killed, outp = run_upkeep(hidi, d, log)
     if rc not in (0, 3):
         raise Infra("upkeep run failed to execute (rc=%s): %s" % (rc, outp[-1500:]))
-    total_calls = count_fs_calls(log)
+    callseq, mut_idx = count_fs_calls(log)
+    total_calls = len(callseq)
     post = snapshot(d, files)
+    def facnew(a, b):      # every path of either snapshot that lies inside the factory directory
+        return sorted(p for p in set(a) | set(b) if in_factory(p))
     lines.append({"ev": "upkeep", "kind": "first", "tree": name, "pre": pre, "post": post, "muts": parse_strace(log, d), "rc": rc,
-                  "killed": False, "msg": outp[-300:] if rc else ""})
+                  "killed": False, "msg": outp[-300:] if rc else "", "facnew": facnew(pre, post)})
     rc2, _, outp2 = run_upkeep(hidi, d, log)
     post2 = snapshot(d, files)
     lines.append({"ev": "upkeep", "kind": "second", "tree": name, "pre": post, "post": post2, "muts": parse_strace(log, d), "rc": rc2,
-                  "killed": False, "msg": outp2[-300:] if rc2 else ""})
+                  "killed": False, "msg": outp2[-300:] if rc2 else "", "facnew": facnew(post, post2)})
     # crash points: SIGKILL on entering the n-th file-system call, then an undisturbed run
     if total_calls > 0 and crash_points > 0:
-        cand = list(range(1, total_calls + 1))
-        pts = cand if len(cand) <= crash_points else sorted(set([cand[-1], cand[-2]] + rng.sample(cand, crash_points - 2)))
+        cand = list(range(total_calls))
+        if len(cand) <= crash_points:
+            pts = cand
+        else:
+            # on entering each mutating call and the call after it (the windows in which the tree is half-done),
+            # then seeded others
+            near = sorted({o for m in mut_idx for o in (m, m + 1) if 0 <= o < total_calls})
+            if len(near) > crash_points:
+                near = sorted(rng.sample(near, crash_points))
+            rest = [c for c in cand if c not in near]
+            pts = sorted(set(near + rng.sample(rest, min(len(rest), max(0, crash_points - len(near))))))
         for n in pts:
             d = fresh("c")
             pre = snapshot(d, files)
-            rc, killed, outp = run_upkeep(hidi, d, log, kill_at=n)
+            rc, killed, outp = run_upkeep(hidi, d, log, kill_at=callseq[n])
             mid = snapshot(d, files)
-            lines.append({"ev": "upkeep", "kind": "crashed", "tree": name, "at": n, "pre": pre, "post": mid, "muts": parse_strace(log, d),
-                          "rc": rc, "killed": True, "msg": ""})
+            lines.append({"ev": "upkeep", "kind": "crashed", "tree": name, "at": "%s#%d" % callseq[n], "pre": pre, "post": mid, "muts": parse_strace(log, d),
+                          "rc": rc, "killed": True, "msg": "", "facnew": facnew(pre, mid)})
             rc, _, outp = run_upkeep(hidi, d, log)
             post = snapshot(d, files)
-            lines.append({"ev": "upkeep", "kind": "recovery", "tree": name, "at": n, "pre": mid, "post": post, "muts": parse_strace(log, d),
-                          "rc": rc, "killed": False, "msg": outp[-300:] if rc else ""})
+            lines.append({"ev": "upkeep", "kind": "recovery", "tree": name, "at": "%s#%d" % callseq[n], "pre": mid, "post": post, "muts": parse_strace(log, d),
+                          "rc": rc, "killed": False, "msg": outp[-300:] if rc else "", "facnew": facnew(mid, post)})
     return lines
